@@ -89,3 +89,277 @@ Theorem C12_no_stale_after_reload_outside_finding :
   q_resp q = Some l -> forall g, In g l -> r_epoch r <= g_epoch g.
 Proof. exact no_stale_outside. Qed.
 Print Assumptions C12_no_stale_after_reload_outside_finding.
+
+(* ================================================================ COMPOSITION: the cache over the database handler
+   Model/Compose.v puts Model/Cache.v on top of Model/Serve.v (C01 / C02 / C13) without changing either:
+   thin adapters only.  Proofs: Proofs/Compose.v; non-vacuity: Proofs/ComposeExample.v.
+
+   Vocabulary (Model/Compose.v; the file's header says which projection is used where types differ).
+   [gen] : a generation = backend, database (key -> rows), and FindLocation on it, [g_loc : request -> locres].
+   [query_of r] : the Serve.query of a Cache.request (q_asked = name on the wire as asked, q_extra = id +
+     65536 * (0 | 1 + EDNS version)); [request_of] is its inverse for 16-bit ids.
+   [locate g r] : the location as the number in the cache key, 65536 when FindLocation fails; [loc_of_num] back
+     to two bytes; [located g r] : FindLocation succeeded.
+   [core max g k a _] := Serve.serve on g for the canonical request (id 0, OPT version 0, no ECS) of name a
+     (as asked), the key's type, class and location - Cache.serve_core, the message put into the LRU;
+   [finish b r _ ecs] := patch b (query_of r) ecs : SetReply (this request's id and question) + OPT with the
+     ECS option - Cache.finish.  The written response is a FUNCTION of the ECS option FindLocation returned
+     (wresponse = option ecsval -> Serve.outcome), because that option depends on the generation and Cache.finish
+     does not see the generation; Serve.serve uses it nowhere but in the OPT.
+   [weightedf] : some address family offered more than one candidate (Wrs.WeightedAnswer) in the answer or for
+     a target of the additional section; [refusedf] : REFUSED or SERVFAIL (both return before lru.Add).
+   [handle max cfg g c now r] : the whole handler = Cache.serve of this instance, preceded by "FindLocation
+     failed: no reply" (after the EDNS version test, before the cache); [htrace max cfg (g0, []) h] : for every
+     query of the history h (events of Model/Cache: queries, reloads, failed reloads) the generation in force,
+     the request, the response written and hit / miss / expired / off.
+   max (max answer) is the listener's (C20) and is fixed along a history.
+
+   Weighted answers.  Serve.v has no random draw: a weighted selection is an item IPick (candidate list, number
+   served) and C01 compares it as a candidate set (C11 owns the draw).  At this level a cached weighted answer
+   (possible only with WRSTimeout > 0) is the same candidate set, so the statements below hold for weighted
+   answers as well; what they say about them is "the frozen draw is one of the draws the statement admits",
+   NOT that the cache redraws.  C12_cached_equals_uncached excludes them (w = false) and so does its instance
+   C12_cached_equals_uncached_handler. *)
+From DnsV Require Import Model.Store Model.LookupV1 Model.Serve Spec.Answer Spec.Rows Proofs.ZoneCut Proofs.Referral.
+From DnsV Require Import Proofs.Compile Proofs.V2Store Model.Compile Proofs.Batch Proofs.CompilePipe Spec.MapOfLists.
+From DnsV Require Import Spec.Declared Proofs.FileLevel Proofs.FileLevelExample.
+From Coq Require Import Permutation.
+From DnsV Require Import Model.Compose Proofs.Compose Proofs.ComposeExample.
+
+(* ADAPTER LEMMAS.  (1) Serve.serve depends on id, EDNS presence and the ECS option only through the final
+   patch: it is the canonical outcome re-addressed to the request (EDNS version 0 or no OPT; other versions
+   are answered before anything else: C13_badvers) *)
+Theorem C12_serve_factors : forall b st q locr ecs max,
+  (q_edns q = None \/ q_edns q = Some 0) ->
+  Serve.serve b st q locr ecs max =
+  patch (Serve.serve b st (canon (q_name q) (q_type q) (q_class q)) locr None max) q ecs.
+Proof. exact serve_factor. Qed.
+Print Assumptions C12_serve_factors.
+
+(* (2) hence the UNCACHED handler of Model/Cache for this instance is Serve.serve, for every request that has a
+   location or an unsupported EDNS version *)
+Theorem C12_uncached_handler_is_serve : forall max g r ecs, (badvers r = true \/ located g r = true) ->
+  Cache.serve_plain gen body wresponse lower_bytes locate (core max) finish badvers badvers_reply g 0 r ecs =
+  Serve.serve (g_backend g) (g_store g) (query_of r) (g_loc g r) ecs max.
+Proof. exact plain_is_serve. Qed.
+Print Assumptions C12_uncached_handler_is_serve.
+
+(* (3) requests and queries: the request built from a query is read back as that query *)
+Theorem C12_request_roundtrip : forall from q, q_id q < 65536 -> query_of (request_of from q) = q.
+Proof. exact query_of_request_of. Qed.
+Print Assumptions C12_request_roundtrip.
+
+(* (4) location numbers and bytes *)
+Theorem C12_location_roundtrip : forall g r, located g r = true ->
+  g_loc g r = LocOk (loc_of_num (locate g r)) /\ locate g r < 65536.
+Proof. exact located_loc. Qed.
+Print Assumptions C12_location_roundtrip.
+
+(* (5) on the domain of C12_cached_equals_uncached (every key well formed, i.e. every request located) the
+   run of [handle] IS the cached run Cache.crun of Model/Cache for this instance *)
+Theorem C12_handler_is_cache_model : forall max cfg h g c,
+  Cache.hist_ok gen lower_bytes locate wf_key g h ->
+  map (fun x => (snd (fst x), snd x)) (htrace max cfg (g, c) h) =
+  flat_map (fun o => match o with Some x => [x] | None => [] end)
+    (crun gen body wresponse lower_bytes locate (core max) (weightedf max) (refusedf max)
+          finish badvers badvers_reply cfg (g, c) h).
+Proof. exact htrace_is_crun. Qed.
+Print Assumptions C12_handler_is_cache_model.
+
+(* C12_cached_equals_uncached APPLIED to the real handler.  Its hypothesis (a) is false of Serve.serve for
+   "equal up to the letter case of owner names" (C12_case_variant_not_owner_case below), so the relation is
+   the one that holds: the cached and the uncached response are what the handler computes for two
+   spellings, equal up to letter case, of one name (same generation, key, request) - or are equal.
+   Hypothesis (b) holds trivially (no draws in Serve.v). *)
+Theorem C12_cached_equals_uncached_handler : forall max cfg rnd' h g,
+  Cache.hist_ok gen lower_bytes locate wf_key g h ->
+  Forall (fun x => let '(w, a, b) := x in w = false ->
+            a = b \/ exists g k a1 a2 r l, lower_bytes a1 = lower_bytes a2 /\
+                       a = finish (core max g k a1 0) r l /\ b = finish (core max g k a2 0) r l)
+    (both gen body wresponse lower_bytes locate (core max) (weightedf max) (refusedf max)
+          finish badvers badvers_reply cfg rnd' g [] h).
+Proof. exact cached_equals_uncached_handler. Qed.
+Print Assumptions C12_cached_equals_uncached_handler.
+
+(* The same by the invariant of C12 ("every entry is serve_core of the current generation at its key"),
+   which says WHICH generation, key and request: for every history (queries of located and unlocated
+   clients, any EDNS, reloads, failed reloads; any cache size, WRSTimeout, clock readings), every response
+   of the cache-enabled handler is
+   - nothing, when FindLocation fails (and the EDNS version is supported), or
+   - the response Serve.serve gives, on the generation in force, to the same request with the name spelled
+     [a], equal to the name asked up to letter case, re-addressed to this request's question (a BADVERS
+     reply has none); on a miss, an expired entry or with the cache off, [a] is the name asked itself. *)
+Theorem C12_cached_is_case_variant_of_uncached : forall max cfg h g0,
+  hist_wire h ->
+  Forall (fun x => let '(g, r, f, o) := x in
+    (badvers r = false /\ located g r = false /\ f = (fun _ => ONoReply)) \/
+    ((badvers r = true \/ located g r = true) /\
+     exists a, lower_bytes a = lower_bytes (q_asked r) /\ (o <> OHit -> a = q_asked r) /\
+       forall ecs, f ecs =
+         requestion (Serve.serve (g_backend g) (g_store g) (query_of (recase r a)) (g_loc g r) ecs max)
+                    (match req_edns r with Some (Npos _) => None | _ => question_of (query_of r) end)))
+    (htrace max cfg (g0, []) h).
+Proof. exact cached_is_case_variant. Qed.
+Print Assumptions C12_cached_is_case_variant_of_uncached.
+
+(* [hist_wire h] : type and class of every question are 16-bit numbers *)
+Theorem C12_hist_wire_meaning : forall h, hist_wire h <->
+  Forall (fun ev => match ev with EQuery _ _ _ r => q_qtype r < 65536 /\ q_qclass r < 65536 | _ => True end) h.
+Proof. intros. unfold hist_wire. tauto. Qed.
+Print Assumptions C12_hist_wire_meaning.
+
+(* [gen_declares g L recs] : the database of generation g is a compiled form of the records recs and the
+   guards of the matching C01 theorem hold for a client located in L - the hypotheses of
+   C01_response_is_spec (row-level compilation, v1 keys for CDB / RocksDB-v1), C01_response_is_spec_v2,
+   C01_file_level_cdb, C01_file_level_rdb_v1, C01_file_level_rdb_v2 (ANY database the modelled
+   compilers produce from the text of a well-formed data file whose declared records are recs) *)
+Theorem C12_gen_declares_meaning : forall g L recs, gen_declares g L recs <->
+  (g_backend g <> RDB2 /\ g_store g = store_v1 recs /\
+   wf_recs recs /\ Forall wf_ns_rdata recs /\ length L = 2%nat /\ wf_view L recs = true) \/
+  (g_backend g = RDB2 /\ g_store g = store_v2 recs /\
+   wf_recs recs /\ Forall wf_ns_rdata recs /\ length L = 2%nat /\ wf_view L recs = true) \/
+  (exists o serial nornet accum feature f stream kvs,
+     g_backend g = CDB /\ recs = declared_file o serial f /\
+     wf_file o serial f = true /\ side_ok accum feature f /\
+     Permutation stream (records bytes (conv_line o serial nornet false) accum feature f) /\
+     compile_cdb bytes (conv_line o serial nornet false) f stream = Ok kvs /\
+     (forall k, get (g_store g) k = vals_of k kvs) /\
+     loc_okb L = true /\ wf_view L recs = true) \/
+  (exists o serial nornet accum feature f db,
+     g_backend g = RDB1 /\ recs = declared_file o serial f /\
+     wf_file o serial f = true /\ side_ok accum feature f /\ feature <> [] /\
+     kvs_ok (records bytes (conv_line o serial nornet false) accum feature f) /\
+     rdb_compilation bytes (conv_line o serial nornet false) accum feature f db /\ rdb_dump db (g_store g) /\
+     loc_okb L = true /\ wf_view L recs = true) \/
+  (exists o serial nornet accum feature f db,
+     g_backend g = RDB2 /\ recs = declared_file o serial f /\
+     wf_file o serial f = true /\ side_ok accum feature f /\ feature <> [] /\
+     kvs_ok (records bytes (conv_line o serial nornet true) accum feature f) /\
+     rdb_compilation bytes (conv_line o serial nornet true) accum feature f db /\ rdb_dump db (g_store g) /\
+     length L = 2%nat /\ wf_view L recs = true).
+Proof. exact gen_declares_meaning. Qed.
+Print Assumptions C12_gen_declares_meaning.
+
+(* [refines_mod_case L recs n q ecs max x] : the reply x echoes q's id and question and is otherwise what
+   C01_response_is_spec prescribes (C01_response_refines_meaning) for the same question with the name
+   spelled a, equal to q's up to letter case: the owner names of the answer section are spelled a *)
+Theorem C12_refines_mod_case_meaning : forall L recs n q ecs max x,
+  refines_mod_case L recs n q ecs max x <->
+  exists a, lower_bytes a = lower_bytes (q_name q) /\ rs_question x = question_of q /\
+    response_refines L recs n (mkQ (q_id q) a (q_type q) (q_class q) (q_edns q)) ecs max
+      (mkResp (rs_id x) (Some (a, q_type q, q_class q)) (rs_rcode x) (rs_aa x) (rs_an x) (rs_ns x) (rs_ex x) (rs_opt x)).
+Proof. intros. unfold refines_mod_case. tauto. Qed.
+Print Assumptions C12_refines_mod_case_meaning.
+
+(* C12_cached_handler_is_spec.  For EVERY sequential history of queries (located or not, any EDNS), reloads
+   and failed reloads, every cache configuration and clock: whatever the cache-ENABLED handler writes for a
+   query with a supported EDNS version refines Spec/Answer.spec_response of the records DECLARED by the
+   generation it is served from (the one in force when the query is asked), for the client's location in
+   that generation - modulo the letter case of owner names; exactly (response_refines) unless the response
+   is a cache hit.  A reply implies the client was located.  Generations are arbitrary stores: the
+   statement is per query, under the premise that the generation in force is a compiled form of recs
+   ([gen_declares]) - so it covers a fixed compiled store as well as reloads between databases compiled
+   from well-formed files by any pipeline, and says nothing for a generation that is neither.
+   By the cache invariant of C12 (Proofs/Compose.history_written), C12_key_injective, the adapter lemmas
+   above and C01_response_is_spec(_v2) / C01_file_level. *)
+Theorem C12_cached_handler_is_spec : forall max cfg h g0,
+  hist_wire h ->
+  Forall (fun x => let '(g, r, f, o) := x in
+    forall recs ecs y n,
+      let L := loc_of_num (locate g r) in
+      gen_declares g L recs ->
+      (req_edns r = None \/ req_edns r = Some 0) ->
+      wf_name n -> nlen (pack n) <= 255 -> lower_bytes (q_asked r) = pack n ->
+      f ecs = OReply y ->
+      located g r = true /\
+      refines_mod_case L recs n (query_of r) ecs max y /\
+      (o <> OHit -> response_refines L recs n (query_of r) ecs max y))
+    (htrace max cfg (g0, []) h).
+Proof. exact cached_handler_is_spec. Qed.
+Print Assumptions C12_cached_handler_is_spec.
+
+(* the same over ONE compiled store: a history without reload is served from g0 throughout *)
+Theorem C12_cached_handler_is_spec_fixed_store : forall max cfg h g0 recs,
+  hist_wire h ->
+  Forall (fun ev => match ev with EReload _ _ => False | _ => True end) h ->
+  Forall (fun x => let '(g, r, f, o) := x in
+    g = g0 /\
+    forall ecs y n,
+      let L := loc_of_num (locate g0 r) in
+      gen_declares g0 L recs ->
+      (req_edns r = None \/ req_edns r = Some 0) ->
+      wf_name n -> nlen (pack n) <= 255 -> lower_bytes (q_asked r) = pack n ->
+      f ecs = OReply y ->
+      located g0 r = true /\
+      refines_mod_case L recs n (query_of r) ecs max y /\
+      (o <> OHit -> response_refines L recs n (query_of r) ecs max y))
+    (htrace max cfg (g0, []) h).
+Proof. exact cached_handler_is_spec_fixed. Qed.
+Print Assumptions C12_cached_handler_is_spec_fixed_store.
+
+(* non-vacuity: generation 1 = the six-line data file of C01_file_level_example as a reversed CDB stream
+   (gen_declares by C01_file_level_cdb's hypotheses), generation 2 = its declared records in v2 keys;
+   client 1 is located in ab by generation 1 and nowhere by generation 2, client 9 has no location.
+   TXT Foo.example.com (miss), TXT foo.example.com with OPT (HIT: id 2, question foo, owner Foo, OPT with
+   the ECS option), A www (one candidate: cached), client 9 (no reply), EDNS version 1 (BADVERS), reload,
+   TXT FOO (miss on generation 2), A www (NODATA + SOA: generation 2 locates the client elsewhere), hit,
+   expiry.  Entries: (cache outcome, (id, rcode, owners of the answer, size of authority, OPT)). *)
+Example C12_cached_handler_example :
+  hist_wire y_hist /\ gen_declares y_g1 x_L x_recs /\ gen_declares y_g2 [0; 0] x_recs /\
+  map (fun x => (snd x, digest (snd (fst x) (Some [7; 7])))) (htrace 1 y_cfg (y_g1, []) y_hist) =
+  [(OMiss, Some (1, 0, [y_Foo], 0, None));
+   (OHit, Some (2, 0, [y_Foo], 0, Some (Some [7; 7])));
+   (OMiss, Some (3, 0, [y_www], 0, None));
+   (OOff, None);
+   (OOff, Some (5, 16, [], 0, Some None));
+   (OMiss, Some (6, 0, [y_FOO], 0, None));
+   (OMiss, Some (7, 0, [], 1, None));
+   (OHit, Some (8, 0, [], 1, None));
+   (OExpired, Some (9, 0, [], 1, None))] /\
+  (exists x, snd (fst (nth 1 (htrace 1 y_cfg (y_g1, []) y_hist) (y_g1, mkReq 0 [] 0 0 0, fun _ => ONoReply, OOff))) None = OReply x /\
+             rs_question x = Some (y_foo, 16, 1) /\
+             rs_an x = [IRR (LookupV1.mkRR y_Foo 16 1 120 [5; 104; 101; 108; 108; 111])]) /\
+  spec_response x_L x_recs x_n1 16 =
+    Answer [x_example; x_com] false [nth 4 x_recs (mkRec [] false None 0 0 0 [])] [nth 0 x_recs (mkRec [] false None 0 0 0 [])] /\
+  lower_bytes y_foo = pack x_n1 /\ lower_bytes y_Foo = lower_bytes y_foo.
+Proof. exact cached_handler_example. Qed.
+Print Assumptions C12_cached_handler_example.
+
+(* "modulo owner case" cannot be sharpened to "equal after lower-casing owner names": z. SOA + NS, m.z. MX 10
+   m.z. and ONE address.  ANY M.z. gets an additional A record for the MX target m.z. (db.HasRecord compares the
+   target with the owner M.z. as asked, case-sensitively); ANY m.z. finds the address in the answer and adds
+   none.  Neither is weighted; with the cache the second asker is served the first one's message (additional
+   record included), without it none.  Both replies refine the statement (additional section of an
+   authoritative answer: soundness only).  Reproduced on the real server, all three backends (C13 harness in
+   replay mode, data file Zz / &z::ns.z / @m.z::m.z:10 / +m.z:192.0.2.7, cache on, ANY M.z. then ANY m.z.:
+   the hit carries the additional A record, the uncached handler writes none).  An observation about
+   handler.go + db/utils.go (HasRecord), not a refutation of C12_cached_equals_uncached: it shows that the
+   theorem's hypothesis (a) fails for the owner-case relation when the real handler is plugged in. *)
+Example C12_case_variant_not_owner_case :
+  map (fun x => (snd x, extras (snd (fst x) None))) (htrace 1 y_cfg (z_g, []) z_hist) =
+    [(OMiss, [IPick z_mz 1 1 [(30, 1, [192; 0; 2; 7])] 1]);
+     (OHit, [IPick z_mz 1 1 [(30, 1, [192; 0; 2; 7])] 1])] /\
+  extras (plain_serve 1 z_g (mkReq 1 z_mz 255 1 (extra_of 2 None)) None) = [] /\
+  weightedf 1 z_g (mkKey 0 255 1 z_mz) = false /\
+  lower_bytes z_Mz = lower_bytes z_mz.
+Proof. exact case_variant_not_owner_case. Qed.
+Print Assumptions C12_case_variant_not_owner_case.
+
+(* What remains outside (stated, not hidden).
+   * max answer is fixed along a history: listeners with different max answers sharing one cache are not
+     covered (an entry computed under one max answer served under another; immaterial for answers with at
+     most one candidate per family when max >= 1, but that is not proved here).
+   * [weightedf] / [refusedf] of this instance are evaluated on the lower-cased name; that the real flags
+     (computed for the name as asked) agree is not proved (it does not enter any statement above: they only
+     decide what is inserted).
+   * FindLocation ([g_loc], C03 / C10), the ECS option it returns (an argument of every response) and the
+     draw among candidates (C11) stay parameters; concurrency (finding F6 above) is outside the sequential
+     semantics; inherited from C01: DS at or below a delegation, order inside sections, completeness of the
+     additional section of authoritative answers. *)
+
+(* with the cache switched off (the uncached handler) no response is a hit, so C12_cached_handler_is_spec
+   gives the exact refinement [response_refines] for every query *)
+Theorem C12_cache_off_no_hit : forall max cfg g c now r,
+  cc_enabled cfg = false -> snd (handle max cfg g c now r) <> OHit.
+Proof. exact cache_off_no_hit. Qed.
+Print Assumptions C12_cache_off_no_hit.
